@@ -24,6 +24,21 @@ struct thread_data { struct cb* control_block; struct hp_slot* hint; };
 struct guard { mptr ptr; struct hp_slot* hp; };
 struct thread_data local_thread_data; struct cb the_cb; int global_thread_block_list;
 size_t xv_number_of_active_hps;
+/* ---- dynamic strategy: dynamic_hp_thread_control_block and its hazard_pointer_block list ---- */
+#ifndef XV_NB
+#define XV_NB 3        /* max number of left-over dynamic blocks */
+#endif
+#ifndef XV_BS
+#define XV_BS 3        /* max size of a left-over block */
+#endif
+#ifndef XV_BNEW
+#define XV_BNEW 6
+#endif
+#define XV_BNEW_DOC      /* slot capacity reserved behind every block header (the block created by allocate_new_hazard_pointer_block has at most 6 slots in this shape) */
+struct hpblock_hdr { struct hpblock_hdr* next; size_t size; };                  /* hazard_pointer_block; its slots follow the header (begin() = this + 1) */
+struct hpblock { struct hpblock_hdr h; struct hp_slot slots[XV_BNEW]; };
+struct dcb { struct hp_slot pointers[XV_K]; size_t total_number_of_hps; struct hpblock_hdr* hp_block; };
+struct dcb the_dcb; struct hpblock dyn_blk[XV_NB + 1];                          /* dyn_blk[XV_NB] is what operator new hands out */
 
 /* ---------------- marked_ptr stubs (algebra proved in the marked_ptr unit) ---------------- */
 uintptr_t mp_ptrmask;                                      /* pointer_mask of the guard's MarkedPtr: arbitrary */
@@ -60,6 +75,25 @@ static void td_ensure_has_control_block(struct thread_data*);
 #define CB_release_hazard_pointer(b, hp, hint) cb_release_hazard_pointer(&(b), &(hp), &(hint))
 #define TD_alloc_hazard_pointer(td) td_alloc_hazard_pointer(&(td))
 #define TD_release_hazard_pointer(td, hp) td_release_hazard_pointer(&(td), &(hp))
+/* dynamic instantiation */
+static struct hp_slot* dcb_begin(struct dcb*); static struct hp_slot* dcb_end(struct dcb*); static struct hp_slot* blk_begin(struct hpblock_hdr*); static struct hp_slot* blk_end(struct hpblock_hdr*);
+static struct hp_slot* blk_initialize_next_block(struct hpblock_hdr*); static struct hp_slot* dcb_initialize_next_block(struct dcb*); static size_t dcb_number_of_hps(struct dcb*);
+static struct hp_slot* dcb_need_more_hps(struct dcb*); static struct hp_slot* blk_initialize_block(struct hpblock_hdr*); static struct hp_slot* dcb_initialize_block(struct dcb*);
+static struct hp_slot* dcb_allocate_new_hazard_pointer_block(struct dcb*);
+#define DCB_begin(b) dcb_begin(&(b))
+#define DCB_end(b) dcb_end(&(b))
+#define BLK_begin(b) blk_begin(&(b))
+#define BLK_end(b) blk_end(&(b))
+#define DCB_initialize_next_block(b) dcb_initialize_next_block(&(b))
+#define BLK_initialize_next_block(b) blk_initialize_next_block(&(b))
+#define DCB_number_of_hps(b) dcb_number_of_hps(&(b))
+#define DCB_need_more_hps(b) dcb_need_more_hps(&(b))
+#define DCB_initialize_block(b) dcb_initialize_block(&(b))
+#define XV_MAX(a, b) ((a) > (b) ? (a) : (b))
+size_t gh_new_bytes; unsigned gh_new_calls;
+#define XV_BLOCK_NEW(n) (gh_new_bytes = (n), gh_new_calls++, &dyn_blk[XV_NB].h)          /* hazard_pointer_block::operator new: a fresh, suitably sized buffer */
+static struct hpblock_hdr* XV_BLOCK_CTOR(struct hpblock_hdr* buf, size_t size) {            /* hazard_pointer_block(size): next = nullptr (default member initialiser), size(size) */
+  XV_MODEL_ASSERT("shape: the new block fits the reserved capacity", size <= XV_BNEW); buf->next = 0; buf->size = size; return buf; }
 #define XV_TRY_ASSIGN(lhs, call) do { struct hp_slot* xv_t = (call); if (!xv_threw) lhs = xv_t; } while (0)
 #define XV_SWAP(a, b) do { __typeof__(a) xv_s = (a); (a) = (b); (b) = xv_s; } while (0)
 #define XV_INIT_base(self, p) (self)->ptr = (p)
@@ -111,19 +145,33 @@ struct guard gA, gB, a0, b0;
 #define SLOT(i) (&the_cb.pointers[i])
 #define CL(x) ((x) < XV_K ? (x) : 0u)      /* clamp an index that is known (assumed/checked) to be < K: keeps the bounds check quiet without a division */
 static unsigned slot_index(const struct hp_slot* s) { for (unsigned i = 0; i < XV_K; i++) if (s == SLOT(i)) return i; return XV_K; }
+#ifdef XV_DYN
+#define XV_NALL (XV_K + (XV_NB + 1) * XV_BNEW)
+static struct hp_slot* ALLSLOT(unsigned n) {
+  if (n < XV_K) return &the_dcb.pointers[n];
+  n -= XV_K;
+  for (unsigned b = 0; b <= XV_NB; b++) { if (n < XV_BNEW) return &dyn_blk[b].slots[n]; n -= XV_BNEW; }
+  return 0;
+}
+#else
+#define XV_NALL XV_K
+#define ALLSLOT(n) (&the_cb.pointers[(n) < XV_K ? (n) : 0u])
+#endif
+static unsigned slot_index_all(const struct hp_slot* s) { for (unsigned i = 0; i < XV_NALL; i++) if (s == ALLSLOT(i)) return i; return XV_NALL; }
 /* address model of the slot array: slot i lives at xv_base + 8*i (xv_base arbitrary, 8-aligned, canonical, non-null).  reinterpret_cast between
  * hazard_pointer* and the slot word is lowered to these two maps (cbmc's native pointer<->integer conversion made the K=8 formulas intractable). */
 uintptr_t xv_base;
 #define XV_BASE ((uintptr_t)0x00007f3a10002040)   /* a concrete canonical address: the code under contract only compares, tags and untags these words */
 #define SLOTW(i) (xv_base + 8 * (uintptr_t)(i))
 static unsigned word_index(uintptr_t w) { uintptr_t d = w - xv_base; return ((d & 7) == 0 && (d >> 3) < XV_K) ? (unsigned)(d >> 3) : XV_K; }
+static unsigned word_index_all(uintptr_t w) { uintptr_t d = w - xv_base; return ((d & 7) == 0 && (d >> 3) < XV_NALL) ? (unsigned)(d >> 3) : XV_NALL; }
 static uintptr_t xv_p2w(const struct hp_slot* p) {
   if (p == 0) return 0;
-  unsigned i = slot_index(p); __CPROVER_assert(i < XV_K, "hazard_pointer* converted to a word is a slot of the block"); return SLOTW(i);
+  unsigned i = slot_index_all(p); __CPROVER_assert(i < XV_NALL, "hazard_pointer* converted to a word is a slot of the block"); return SLOTW(i);
 }
 static struct hp_slot* xv_w2p(uintptr_t w) {
   if (w == 0) return 0;
-  unsigned i = word_index(w); __CPROVER_assert(i < XV_K, "word converted to hazard_pointer* is the address of a slot of the block"); return SLOT(CL(i));
+  unsigned i = word_index_all(w); __CPROVER_assert(i < XV_NALL, "word converted to hazard_pointer* is the address of a slot of the block"); return ALLSLOT(i);
 }
 /* guard invariant GI: a non-null pointer is published in the guard's slot */
 static _Bool gi_ok(const struct guard* g) {
@@ -194,10 +242,10 @@ static _Bool owners_unchanged_except(const struct hp_slot* s) { for (unsigned i 
 static _Bool same_guard(const struct guard* x, const struct guard* y) { return x->ptr == y->ptr && x->hp == y->hp; }
 
 /* ---------------- builder: an arbitrary state satisfying Inv_K (arbitrary chain order, arbitrary subset held) ---------------- */
-uint64_t in_ranks; unsigned in_nfree, in_a_idx, in_b_idx, in_op; _Bool in_uninit;       /* in_ranks: nibble i = rank of slot i on the chain, 15 = held */
+unsigned in_k, in_harness; uint64_t in_ranks; unsigned in_nfree, in_a_idx, in_b_idx, in_op; _Bool in_uninit;       /* in_ranks: nibble i = rank of slot i on the chain, 15 = held */
 mptr in_a_ptr, in_b_ptr, in_val, in_expected, in_src; uintptr_t in_mask; int in_order;
 static void build_state(_Bool with_a, _Bool with_b) {
-  in_a_idx = nondet_uint(); in_b_idx = nondet_uint(); in_uninit = nondet_bool();
+  in_k = XV_K; in_a_idx = nondet_uint(); in_b_idx = nondet_uint(); in_uninit = nondet_bool();
   in_a_ptr = nondet_uptr(); in_b_ptr = nondet_uptr(); in_mask = nondet_uptr(); mp_ptrmask = in_mask;
   xv_base = XV_BASE;
   XV_ASSUME(in_a_idx <= XV_K && in_b_idx <= XV_K && (in_a_idx == XV_K || in_a_idx != in_b_idx));
@@ -250,6 +298,9 @@ static void build_state(_Bool with_a, _Bool with_b) {
 
 /* ---------------- loop cut of acquire's retry loop ---------------- */
 mptr* acq_src; _Bool env_on;
+_Bool acq_captured; mptr acq_p2_entry; struct hp_slot* acq_hp_entry;
+static _Bool acq_capture(struct guard* self, mptr p2) {      /* old() values for the loop invariant: captured at its first evaluation (the base case) */
+  if (!acq_captured) { acq_captured = 1; acq_p2_entry = p2; acq_hp_entry = self->hp; } return 1; }
 static _Bool acq_loop_inv(struct guard* self, mptr p2, int order) {
   if (self != &gA || self->ptr != a0.ptr || p2 != mon_ld_val || !CANON(p2)) return 0;
   if (mon_ld_clock > xv_clock || mon_ld_count < 1 || (mon_ld_count >= 2 && mon_ld_order != order) || mon_weak_fence != 0) return 0;
@@ -257,7 +308,8 @@ static _Bool acq_loop_inv(struct guard* self, mptr p2, int order) {
     if (mon_st_count[i] && !XV_IS_RELEASE(mon_st_order[i])) return 0;
     if (SLOT(i) != self->hp && !in_uninit && (mon_st_count[i] != 0 || SLOT(i)->value != pre_val[i])) return 0;   /* frame: only the own slot is written */
   }
-  if (p2 != 0 && self->hp == 0) return 0;
+  /* the slot handle is loop-invariant; before the first iteration the state is the entry state (old()), afterwards set_object has used the handle */
+  if (self->hp != acq_hp_entry || (mon_ld_count == 1 ? p2 != acq_p2_entry : self->hp == 0)) return 0;
   if (!(self->hp == a0.hp || (a0.hp == 0 && self->hp == pre_hint && pre_hint != 0) || (a0.hp == 0 && pre_cb == 0 && self->hp == SLOT(0)))) return 0;
   return derive_owner(&gA, &gB) && inv_ok(&gA, &gB, 1);
 }
@@ -268,8 +320,9 @@ static _Bool acq_loop_inv(struct guard* self, mptr p2, int order) {
 #define XV_HAVOC_SRC ((void)0)                     /* no interference: nobody writes the source */
 #define SRC_STABLE (*acq_src == in_src && mon_ld_val == in_src)
 #endif
-#define XV_INV_ACQ (!xv_threw && SRC_STABLE && acq_loop_inv(self, p2, order))
-#define XV_HAVOC_ACQ p1 = nondet_uptr(); p2 = nondet_uptr(); xv_clock = nondet_u64(); XV_HAVOC_SRC; \
+#define XV_INV_ACQ (acq_capture(self, p2) && !xv_threw && SRC_STABLE && acq_loop_inv(self, p2, order))
+#define XV_HAVOC_ACQ p1 = nondet_uptr(); p2 = nondet_uptr(); self->ptr = nondet_uptr(); /* pinned again by the invariant */ \
+  xv_clock = nondet_u64(); XV_HAVOC_SRC; \
   mon_ld_clock = nondet_u64(); mon_ld_val = nondet_uptr(); mon_ld_order = nondet_int(); mon_ld_count = nondet_uint(); \
   { unsigned hv = slot_index(self->hp); if (hv < XV_K) { /* the loop body writes only the guard's own slot (set_object) */ \
       the_cb.pointers[hv].value = nondet_uptr(); mon_st_clock[hv] = nondet_u64(); mon_fence_clock[hv] = nondet_u64(); \
@@ -284,6 +337,11 @@ void xv_env(void) { if (env_on) { mptr v = nondet_uptr(); XV_ASSUME(CANON(v)); *
 
 /* =================================================== harnesses =================================================== */
 #define THREW_BAD_ALLOC (xv_threw == XV_EXC_bad_hazard_pointer_alloc)
+#if XV_K >= 2
+#define XV_CANARY2(n) XV_CANARY(n)      /* situations that need two held slots */
+#else
+#define XV_CANARY2(n) ((void)0)
+#endif
 
 /* ---- slot word: set_object / try_get_object / set_link / get_link / is_link ---- */
 void h_slot(void) {
@@ -382,7 +440,7 @@ static _Bool returned_to_chain(const struct hp_slot* s) {      /* s was released
   return local_thread_data.hint == s && s->value == (xv_p2w(pre_hint) | SV_BIT) && slots_unchanged_except(s);
 }
 void h_gops(void) {
-  build_state(1, 1); in_op = nondet_uint(); in_val = nondet_uptr(); XV_ASSUME(in_op < OP_COUNT && CANON(in_val));
+  build_state(1, 1); in_harness = 1; in_op = nondet_uint(); in_val = nondet_uptr(); XV_ASSUME(in_op < OP_COUNT && CANON(in_val));
   _Bool fresh_a = in_op <= OP_MOVE_CTOR;                       /* constructors: A is raw storage */
   if (fresh_a) { XV_ASSUME(in_a_idx == XV_K); gA.ptr = nondet_uptr(); unsigned g = nondet_uint(); gA.hp = g < XV_K ? SLOT(g) : 0; a0.ptr = 0; a0.hp = 0; }
   _Bool pre_gi2 = gi2_ok(&a0) && gi2_ok(&b0);
@@ -426,7 +484,7 @@ void h_gops(void) {
       else { XV_OBL("hp.ctor.protects", gA.hp == 0 && slots_unchanged()); if (in_op == OP_CTOR) XV_CANARY("gops.ctor_null"); }
       if (in_op == OP_COPY_CTOR) {
         XV_OBL("hp.copy.shares", gA.ptr == gB.ptr && (MP_get(v) == 0 || (gA.hp != gB.hp && gA.hp->value == gB.hp->value && gB.hp->value == pre_val[CL(slot_index(gB.hp))])));
-        if (MP_get(v) != 0) XV_CANARY("gops.copy_ctor_protect"); else XV_CANARY("gops.copy_ctor_empty");
+        if (MP_get(v) != 0) XV_CANARY2("gops.copy_ctor_protect"); else XV_CANARY("gops.copy_ctor_empty");
       }
       break; }
     case OP_MOVE_CTOR:
@@ -437,8 +495,8 @@ void h_gops(void) {
       XV_OBL("hp.copy.shares", ret == &gA && gA.ptr == b0.ptr && same_guard(&gB, &b0) && (b0.hp == 0 || b0.hp->value == pre_val[CL(slot_index(b0.hp))]));
       XV_OBL("hp.copy.shares", MP_get(b0.ptr) == 0 || (gA.hp != 0 && gA.hp != gB.hp && gA.hp->value == gB.hp->value));
       if (a0.hp == 0 && gA.hp != 0) XV_OBL("hp.alloc.k_available", gA.hp == head);
-      if (MP_get(b0.ptr) != 0 && a0.hp != 0) XV_CANARY("gops.copy_assign_reuse");
-      if (MP_get(b0.ptr) != 0 && a0.hp == 0) XV_CANARY("gops.copy_assign_alloc");
+      if (MP_get(b0.ptr) != 0 && a0.hp != 0) XV_CANARY2("gops.copy_assign_reuse");
+      if (MP_get(b0.ptr) != 0 && a0.hp == 0) XV_CANARY2("gops.copy_assign_alloc");
       if (MP_get(b0.ptr) == 0 && a0.hp != 0) XV_CANARY("gops.copy_assign_from_empty");
       if (MP_get(b0.ptr) == 0 && a0.hp == 0) XV_CANARY("gops.copy_assign_both_empty");
       break;
@@ -467,7 +525,7 @@ void h_gops(void) {
       break;
     case OP_SWAP:
       XV_OBL("hp.swap.exchanges", same_guard(&gA, &b0) && same_guard(&gB, &a0) && slots_unchanged());
-      if (a0.hp && b0.hp) XV_CANARY("gops.swap_both"); if (a0.hp && !b0.hp) XV_CANARY("gops.swap_one");
+      if (a0.hp && b0.hp) XV_CANARY2("gops.swap_both"); if (a0.hp && !b0.hp) XV_CANARY("gops.swap_one");
       break;
     case OP_SWAP_SELF:
       XV_OBL("hp.swap.exchanges", same_guard(&gA, &a0) && same_guard(&gB, &b0) && slots_unchanged());
@@ -488,11 +546,11 @@ static _Bool validated(const struct guard* g) {     /* store(slot,obj) < seq_cst
       && mon_fence_clock[i] < mon_ld_clock && mon_ld_val == g->ptr && g->hp->value == MP_get(g->ptr);
 }
 void h_acq(void) {
-  build_state(1, 1); in_op = nondet_uint(); in_expected = nondet_uptr(); in_src = nondet_uptr(); in_order = nondet_int();
+  build_state(1, 1); in_harness = 2; in_op = nondet_uint(); in_expected = nondet_uptr(); in_src = nondet_uptr(); in_order = nondet_int();
   XV_ASSUME(in_op < 2 && CANON(in_expected) && CANON(in_src) && in_order >= mo_relaxed && in_order <= mo_seq_cst);
   mptr src = in_src; acq_src = &src; mon_src = &src;
   _Bool pre_gi2 = gi2_ok(&a0) && gi2_ok(&b0), avail = in_uninit || pre_hint != 0, r = 0;
-  env_on = 1;
+  env_on = 1; acq_captured = 0;
   if (in_op == 0) g_acquire(&gA, &src, in_order); else r = g_acquire_if_equal(&gA, &src, in_expected, in_order);
   env_on = 0;
   XV_OBL("hp.guard_ops.preserve_inv", derive_owner(&gA, &gB) && inv_ok(&gA, &gB, 0) && same_guard(&gB, &b0));
@@ -524,8 +582,56 @@ void h_acq(void) {
     if (!r && mon_ld_count == 1) XV_CANARY("aie.false_first");
 #ifdef XV_INT
     if (!r && mon_ld_count == 2) { if (a0.hp) XV_CANARY("aie.false_changed"); else XV_CANARY("aie.false_changed_released"); }
+    if (!r && mon_ld_count == 2 && MP_get(mon_ld_val) == MP_get(in_expected) && MP_get(in_expected) != 0) XV_CANARY("aie.false_mark_only_changed");   /* (A,0) -> (A,1): a logical delete by another thread */
 #else
     XV_OBL("hp.acquire_if_equal.iff", r == (in_src == in_expected) && src == in_src);
 #endif
   }
 }
+
+/* ---- dynamic strategy: initialize on an ARBITRARY left-over record (adopted control block with up to XV_NB old blocks), then allocations ---- */
+#ifdef XV_DYN
+#define XV_NMAX (XV_K + XV_NB * XV_BS)
+unsigned in_nb; unsigned in_sz[XV_NB];
+void h_dyn(void) {
+  in_nb = nondet_uint(); XV_ASSUME(in_nb <= XV_NB);
+  xv_base = XV_BASE; xv_threw = 0; xv_clock = 0; mp_ptrmask = nondet_uptr(); gh_new_calls = 0;
+  unsigned E[XV_NMAX + 1], N = 0; size_t total = XV_K;
+  for (unsigned i = 0; i < XV_K; i++) E[N++] = i;
+  for (unsigned b = 0; b < XV_NB; b++) {
+    in_sz[b] = nondet_uint(); XV_ASSUME(in_sz[b] >= 1 && in_sz[b] <= XV_BS);
+    dyn_blk[b].h.size = in_sz[b]; dyn_blk[b].h.next = (b + 1 < in_nb) ? &dyn_blk[b + 1].h : 0;
+    if (b < in_nb) { total += in_sz[b]; for (unsigned j = 0; j < XV_BS; j++) if (j < in_sz[b]) E[N++] = XV_K + b * XV_BNEW + j; }
+  }
+  for (unsigned n = 0; n < XV_NALL; n++) ALLSLOT(n)->value = nondet_uptr();        /* stale links, stale object values, anything */
+  uintptr_t old[XV_NALL];
+  the_dcb.hp_block = in_nb ? &dyn_blk[0].h : 0; the_dcb.total_number_of_hps = total;
+  dyn_blk[XV_NB].h.next = (struct hpblock_hdr*)0; dyn_blk[XV_NB].h.size = nondet_size();
+  struct hp_slot* hint = 0; size_t act0 = nondet_size(); xv_number_of_active_hps = act0;
+  dcb_initialize(&the_dcb, &hint);
+  XV_OBL("hp.dynamic.initialize.relinks_all", hint == ALLSLOT(0) && !xv_threw && xv_number_of_active_hps == act0 + total);
+  for (unsigned m = 0; m < XV_NMAX; m++) if (m < N)       /* the chain visits every slot of the in-object array and of every block exactly once, then null */
+    XV_OBL("hp.dynamic.initialize.relinks_all", ALLSLOT(E[m])->value == ((m + 1 < N ? SLOTW(E[m + 1]) : 0) | SV_BIT));
+  if (in_nb == XV_NB) XV_CANARY("dyn.init_max_blocks"); if (in_nb == 0) XV_CANARY("dyn.init_no_block");
+  struct hp_slot* r[XV_NMAX + 1];
+  for (unsigned m = 0; m < XV_NMAX; m++) if (m < N) {     /* N successive allocations: pairwise distinct slots, no new block */
+    r[m] = dcb_alloc_hazard_pointer(&the_dcb, &hint);
+    XV_OBL("hp.dynamic.alloc.distinct", !xv_threw && r[m] == ALLSLOT(E[m]) && gh_new_calls == 0);
+    for (unsigned l = 0; l < m; l++) XV_OBL("hp.dynamic.alloc.distinct", r[l] != r[m]);
+    hp_set_object(r[m], 0x1000 + 16 * m);
+  }
+  XV_OBL("hp.dynamic.alloc.distinct", hint == 0);
+  for (unsigned n = 0; n < XV_NALL; n++) old[n] = ALLSLOT(n)->value;
+  struct hpblock_hdr* old_head = the_dcb.hp_block;
+  struct hp_slot* x = dcb_alloc_hazard_pointer(&the_dcb, &hint);         /* all slots held: the dynamic strategy grows instead of throwing */
+  size_t hps = XV_K > total / 2 ? XV_K : total / 2;
+  XV_OBL("hp.dynamic.need_more.never_throws", !xv_threw && gh_new_calls == 1 && gh_new_bytes == sizeof(struct hpblock_hdr) + hps * sizeof(struct hp_slot));
+  XV_OBL("hp.dynamic.need_more.never_throws", x == &dyn_blk[XV_NB].slots[0] && the_dcb.hp_block == &dyn_blk[XV_NB].h && dyn_blk[XV_NB].h.next == old_head
+         && dyn_blk[XV_NB].h.size == hps && the_dcb.total_number_of_hps == total + hps && xv_number_of_active_hps == act0 + total + hps);
+  for (unsigned n = 0; n < XV_K + XV_NB * XV_BNEW; n++) XV_OBL("hp.dynamic.need_more.never_throws", ALLSLOT(n)->value == old[n]);       /* old slots untouched */
+  for (unsigned j = 0; j < XV_BNEW; j++) if (j < hps)
+    XV_OBL("hp.dynamic.need_more.never_throws", dyn_blk[XV_NB].slots[j].value == ((j + 1 < hps ? SLOTW(XV_K + XV_NB * XV_BNEW + j + 1) : 0) | SV_BIT));
+  XV_OBL("hp.dynamic.need_more.never_throws", hint == (hps > 1 ? &dyn_blk[XV_NB].slots[1] : 0));
+  if (hps > XV_K) XV_CANARY("dyn.grow_half"); else XV_CANARY("dyn.grow_k");
+}
+#endif
